@@ -282,6 +282,8 @@ func runImpl(data []byte, gz bool, mids *metaIDs) (Expect, string) {
 type tmember struct {
 	name string
 	data []byte
+	typ  byte   // 0 = regular file
+	link string // link target for symlinks / hard links
 }
 
 func tarMembers(b []byte) []tmember {
@@ -293,7 +295,7 @@ func tarMembers(b []byte) []tmember {
 			break
 		}
 		d, _ := io.ReadAll(tr)
-		out = append(out, tmember{h.Name, d})
+		out = append(out, tmember{name: h.Name, data: d})
 	}
 	return out
 }
@@ -302,8 +304,25 @@ func buildTar(ms []tmember) []byte {
 	var b bytes.Buffer
 	tw := tar.NewWriter(&b)
 	for _, m := range ms {
-		tw.WriteHeader(&tar.Header{Name: m.name, Mode: 0600, Size: int64(len(m.data))})
-		tw.Write(m.data)
+		h := &tar.Header{Name: m.name, Mode: 0600, Size: int64(len(m.data))}
+		if m.typ != 0 {
+			h.Typeflag = m.typ
+			h.Linkname = m.link
+			if m.typ == tar.TypeXGlobalHeader {
+				h.Name = ""
+				h.Mode = 0
+				h.PAXRecords = map[string]string{"comment": "x"}
+			}
+			if m.typ != tar.TypeReg {
+				h.Size = 0
+			}
+		}
+		if err := tw.WriteHeader(h); err != nil {
+			panic(err)
+		}
+		if h.Size > 0 {
+			tw.Write(m.data)
+		}
 	}
 	tw.Close()
 	return b.Bytes()
@@ -406,6 +425,11 @@ func main() {
 						c.Oracle = "accepted-without-member:" + n
 					}
 				}
+				for n := range have {
+					if n != "meta.json" && n != "state.bin" && n != "SHA256SUMS" {
+						c.Oracle = "accepted-with-unexpected-member"
+					}
+				}
 			}
 		} else if mu.kind == "identity" {
 			c.Oracle = "intact-archive-rejected: " + exp.Msg
@@ -430,7 +454,9 @@ func main() {
 			k := string(key)
 			if seenCoq[k] {
 				c.ToCoq = false
-				c.Archive = ""
+				if c.Oracle == "" {
+					c.Archive = ""
+				}
 			} else {
 				seenCoq[k] = true
 			}
@@ -516,7 +542,7 @@ func main() {
 					continue
 				}
 				rn := append([]tmember{}, ms...)
-				rn[i] = tmember{nn, ms[i].data}
+				rn[i] = tmember{name: nn, data: ms[i].data}
 				both(fmt.Sprintf("rename:%s->%q", ms[i].name, nn), rn)
 			}
 			// content replaced wholesale (same length and different length)
@@ -530,7 +556,7 @@ func main() {
 					continue
 				}
 				rp := append([]tmember{}, ms...)
-				rp[i] = tmember{ms[i].name, a}
+				rp[i] = tmember{name: ms[i].name, data: a}
 				both(fmt.Sprintf("replace:%s#%d", ms[i].name, k), rp)
 			}
 		}
@@ -541,17 +567,22 @@ func main() {
 			}
 		}
 		injects := []tmember{
-			{"evil.bin", []byte("x")}, {"meta.json", []byte{}}, {"meta.json", []byte("{}")},
-			{"meta.json", []byte("{\"Index\":99}")}, {"state.bin", []byte{}}, {"state.bin", []byte("zz")},
-			{"SHA256SUMS", []byte{}}, {"SHA256SUMS", []byte("\n")}, {"SHA256SUMS", []byte("garbage line\n")},
-			{"SHA256SUMS", []byte(fmt.Sprintf("%x  state.bin\n", sum(b.state)))},
-			{"SHA256SUMS", []byte(fmt.Sprintf("%x  other.bin\n", sum(b.state)))},
-			{"SHA256SUMS", []byte(fmt.Sprintf("%x  state.bin\n", sum([]byte("zz"))))},
+			{name: "evil.bin", data: []byte("x")}, {name: "meta.json", data: []byte{}}, {name: "meta.json", data: []byte("{}")},
+			{name: "meta.json", data: []byte("{\"Index\":99}")}, {name: "state.bin", data: []byte{}}, {name: "state.bin", data: []byte("zz")},
+			{name: "SHA256SUMS", data: []byte{}}, {name: "SHA256SUMS", data: []byte("\n")}, {name: "SHA256SUMS", data: []byte("garbage line\n")},
+			{name: "SHA256SUMS", data: []byte(fmt.Sprintf("%x  state.bin\n", sum(b.state)))},
+			{name: "SHA256SUMS", data: []byte(fmt.Sprintf("%x  other.bin\n", sum(b.state)))},
+			{name: "SHA256SUMS", data: []byte(fmt.Sprintf("%x  state.bin\n", sum([]byte("zz"))))},
+			// members that are not regular files: directory, symlink, hard link, fifo, char device, PAX global header
+			{name: "evil/", typ: tar.TypeDir}, {name: "evil.lnk", typ: tar.TypeSymlink, link: "state.bin"},
+			{name: "evil.hard", typ: tar.TypeLink, link: "state.bin"}, {name: "evil.fifo", typ: tar.TypeFifo},
+			{name: "evil.chr", typ: tar.TypeChar}, {name: "pax", typ: tar.TypeXGlobalHeader},
+			{name: "state.bin", typ: tar.TypeSymlink, link: "meta.json"}, {name: "meta.json", typ: tar.TypeDir},
 		}
 		for _, inj := range injects {
 			for j := 0; j <= len(ms); j++ {
 				l := append(append(append([]tmember{}, ms[:j]...), inj), ms[j:]...)
-				both(fmt.Sprintf("inject:%s(%d)@%d", inj.name, len(inj.data), j), l)
+				both(fmt.Sprintf("inject:%s(%d)t%d@%d", inj.name, len(inj.data), inj.typ, j), l)
 			}
 		}
 		// forged archive: consistent sums over altered payload must be accepted only as itself
